@@ -102,6 +102,11 @@ def load_module(prop):
 def run_shard_main(prop, tier, seed, shard, nshards, budget_s, out_path):
     mod = load_module(prop)
     ctx = Ctx(prop, tier, seed, shard, nshards, budget_s)
+    try:  # one core per shard: baton hand-offs between node threads are ~5x cheaper
+        cpus = sorted(os.sched_getaffinity(0))
+        os.sched_setaffinity(0, {cpus[shard % len(cpus)]})
+    except (AttributeError, OSError):
+        pass
     try:
         if hasattr(mod, "run_shard"):
             mod.run_shard(ctx)
